@@ -932,8 +932,17 @@ func newAttGen(t *rapid.T) *attGen {
 	g := &attGen{c: &AttCase{}}
 	g.c.BaseEpoch = rapid.SampledFrom([]uint64{0, 1, 2, 7, 1000}).Draw(t, "base_epoch")
 	g.c.Sizes = make([]int, 12)
+	// mostly tiny committees (conflicts and covers are frequent); one case in six uses committee sizes around the
+	// byte / 8-byte-word boundaries of the participation bitlist (bit length = size+1 with the delimiter)
+	small := []int{3, 4, 5, 3, 4, 5, 8, 9}
+	big := []int{7, 8, 15, 16, 17, 31, 32, 55, 56, 60, 63, 64, 65, 120, 124, 127, 128}
+	useBig := rapid.IntRange(0, 5).Draw(t, "big_committees") == 0
 	for i := range g.c.Sizes {
-		g.c.Sizes[i] = rapid.SampledFrom([]int{3, 4, 5, 3, 4, 5, 8, 9}).Draw(t, "size")
+		if useBig && rapid.IntRange(0, 2).Draw(t, "big") != 0 {
+			g.c.Sizes[i] = rapid.SampledFrom(big).Draw(t, "size")
+		} else {
+			g.c.Sizes[i] = rapid.SampledFrom(small).Draw(t, "size")
+		}
 	}
 	g.hot = [3]int{rapid.IntRange(0, 2).Draw(t, "hot_e"), rapid.IntRange(0, 1).Draw(t, "hot_s"), rapid.IntRange(0, 1).Draw(t, "hot_c")}
 	return g
